@@ -275,8 +275,11 @@ def _weightx(case):
         D, E = 2, 2
         obs = rng.normal(size=(F, N, D)) + 1j * rng.normal(size=(F, N, D))
         emb = rng.normal(size=(F, N, E))
-        if K < 2 or np.any(aff8.sum(-1) == 0) or np.any((aff8 * (sal[..., None, :] if sal is not None else 1)).sum() == 0):
-            return []
+        masked = aff8 * (sal[..., None, :] if sal is not None else 1)
+        axes = tuple(a % 3 for a in wca)
+        norm = masked.sum(axis=axes, keepdims=True).sum(axis=-2, keepdims=True) if 1 not in axes else np.ones(1)
+        if K < 2 or np.any(aff8.sum(-1) == 0) or np.any(norm == 0) or np.any(masked.sum(-1) == 0):
+            return []        # positive class mass is the premise of the weight rule
         m, exc = call(GCACGMMTrainer()._m_step, obs / np.linalg.norm(obs, axis=-1, keepdims=True), emb, np.ones((F, K, N)),
                       affiliation=aff8 / 8.0, saliency=(sal if sal is not None else np.ones((F, N))).astype(float), hermitize=True,
                       covariance_norm='eigenvalue', eigenvalue_floor=1e-10, covariance_type='spherical', fixed_covariance=None,
